@@ -208,22 +208,70 @@ fn hier_labels(kernel: Kernel<f64>, m: Method, num: Option<usize>, dis: Option<f
     }
 }
 
+/// memory layouts in which the same logical matrix is presented (all as owned arrays with unusual strides, so that the
+/// `&Array2`, `ArrayView2` and dataset entry points all see them; junk cells of the strided variants hold NaN)
+const LAYOUTS: [&str; 8] = ["standard", "fortran", "rows_reversed", "cols_reversed", "both_reversed", "rows_strided", "cols_strided", "fortran_rows_reversed"];
+fn laid_out(rows: &[Vec<f64>], layout: usize) -> Array2<f64> {
+    use ndarray::{s, ShapeBuilder};
+    let a = arr(rows);
+    let (n, p) = a.dim();
+    let r = match layout {
+        0 => a.clone(),
+        1 => { let mut f = Array2::<f64>::zeros((n, p).f()); f.assign(&a); f }
+        2 => Array2::from_shape_fn((n, p), |(i, j)| a[(n - 1 - i, j)]).slice_move(s![..;-1, ..]),
+        3 => Array2::from_shape_fn((n, p), |(i, j)| a[(i, p - 1 - j)]).slice_move(s![.., ..;-1]),
+        4 => Array2::from_shape_fn((n, p), |(i, j)| a[(n - 1 - i, p - 1 - j)]).slice_move(s![..;-1, ..;-1]),
+        5 => Array2::from_shape_fn((2 * n, p), |(i, j)| if i % 2 == 0 { a[(i / 2, j)] } else { f64::NAN }).slice_move(s![..;2, ..]),
+        6 => Array2::from_shape_fn((n, 2 * p), |(i, j)| if j % 2 == 0 { a[(i, j / 2)] } else { f64::NAN }).slice_move(s![.., ..;2]),
+        _ => { let mut f = Array2::<f64>::zeros((n, p).f()); f.assign(&Array2::from_shape_fn((n, p), |(i, j)| a[(n - 1 - i, j)])); f.slice_move(s![..;-1, ..]) }
+    };
+    assert!(r == a, "layout construction changed the logical data");
+    r
+}
+/// do all rows lie contiguously in memory (what the k-d tree index of linfa-nn requires)?
+fn rows_contiguous(a: &Array2<f64>) -> bool { a.rows().into_iter().all(|r| r.to_slice().is_some()) }
+
+const SCALES: [i32; 5] = [0, -40, 20, -20, 40];
+fn scale_tag(k: i32) -> String { if k == 0 { "scale_0".into() } else if k < 0 { format!("scale_2pm{}", -k) } else { format!("scale_2p{}", k) } }
+/// the parameters that carry units follow the records: Gaussian eps and the polynomial constant scale with the squared
+/// record scale (the Gaussian kernel matrix is then unchanged, the polynomial one is multiplied by 2^(2k*degree)); the
+/// linear kernel has no parameter (its matrix is multiplied by 2^(2k))
+fn km_scaled(km: KM, k: i32) -> KM {
+    let f = (2.0f64).powi(2 * k);
+    match km { KM::Lin => KM::Lin, KM::Gauss(e) => KM::Gauss(e * f), KM::Poly(c, d) => KM::Poly(c * f, d) }
+}
+
+/// rotation of layouts and scales over the case ids (no multiplication of the case count)
 #[allow(clippy::too_many_arguments)]
 fn one_case(
     out: &mut Out, id: u64, rng: &mut Sm64, x: &[Vec<f64>], fam: &str, km: KM, sparse: Option<(usize, usize)>,
     hier_methods: &[usize], max_crit: usize, exhaustive: bool,
 ) {
+    let h = fnv(&id.to_le_bytes());
+    let layout = (h % 8) as usize;
+    let rhs_layout = ((h >> 8) % 8) as usize;
+    let k = SCALES[((h >> 16) % 5) as usize];
+    let f = (2.0f64).powi(k);
+    let xs: Vec<Vec<f64>> = x.iter().map(|r| r.iter().map(|v| v * f).collect()).collect();
+    one_case_ls(out, id, rng, &xs, fam, km_scaled(km, k), sparse, hier_methods, max_crit, exhaustive, layout, rhs_layout, k);
+}
+
+#[allow(clippy::too_many_arguments)]
+fn one_case_ls(
+    out: &mut Out, id: u64, rng: &mut Sm64, x: &[Vec<f64>], fam: &str, km: KM, sparse: Option<(usize, usize)>,
+    hier_methods: &[usize], max_crit: usize, exhaustive: bool, layout: usize, rhs_layout: usize, scale_k: i32,
+) {
     let n = x.len();
     let d = x[0].len();
-    let xa = arr(x);
+    let xa = laid_out(x, layout);
     let (kind, nn, nnname) = match sparse {
         None => (KernelType::Dense, CommonNearestNeighbour::KdTree, "none"),
         Some((k, w)) => (KernelType::Sparse(k), NNS[w].0.clone(), NNS[w].1),
     };
     let kname = km_name(km);
     let desc = format!(
-        "{{\"n\": {}, \"d\": {}, \"family\": {}, \"kernel\": {}, \"kind\": {}, \"nn\": {}, \"hier_methods\": {:?}, \"X\": {:?}}}",
-        n, d, jstr(fam), jstr(&kname),
+        "{{\"n\": {}, \"d\": {}, \"family\": {}, \"layout\": {}, \"rhs_layout\": {}, \"scale\": \"2^{}\", \"kernel\": {}, \"kind\": {}, \"nn\": {}, \"hier_methods\": {:?}, \"X\": {:?}}}",
+        n, d, jstr(fam), jstr(LAYOUTS[layout]), jstr(LAYOUTS[rhs_layout]), scale_k, jstr(&kname),
         jstr(&match sparse { None => "dense".to_string(), Some((k, _)) => format!("sparse({})", k) }),
         jstr(nnname), hier_methods.iter().map(|m| METHODS[*m].1).collect::<Vec<_>>(), x
     );
@@ -232,7 +280,11 @@ fn one_case(
         (if sparse.is_some() { "sparse" } else { "dense" }).to_string(),
         format!("nn_{}", nnname),
         format!("family_{}", fam),
+        format!("layout_{}", LAYOUTS[layout]),
+        format!("rhs_layout_{}", LAYOUTS[rhs_layout]),
+        scale_tag(scale_k),
     ];
+    if !rows_contiguous(&xa) { tags.push("rows_noncontiguous".to_string()); }
     for m in hier_methods { tags.push(format!("linkage_{}", METHODS[*m].1)); }
     if let KM::Poly(c, dg) = km {
         let dclass = if dg == 0.0 { "zero" } else if dg == 1.0 { "one" } else if dg < 0.0 && dg.fract() != 0.0 { "negative_fraction" }
@@ -248,13 +300,17 @@ fn one_case(
     out.bump(if sparse.is_some() { "kind_sparse" } else { "kind_dense" });
     if sparse.is_some() { out.bump(&format!("nn_{}", nnname)); }
     out.bump(&format!("family_{}", fam));
+    out.bump(&format!("layout_{}_{}", LAYOUTS[layout], if sparse.is_some() { "sparse" } else { "dense" }));
+    out.bump(&format!("rhs_layout_{}_{}", LAYOUTS[rhs_layout], if sparse.is_some() { "sparse" } else { "dense" }));
+    out.bump(&format!("{}_{}", scale_tag(scale_k), match km { KM::Lin => "linear", KM::Gauss(_) => "gaussian", KM::Poly(..) => "polynomial" }));
+    if !hier_methods.is_empty() { out.bump(&format!("hier_on_layout_{}", LAYOUTS[layout])); out.bump(&format!("hier_on_{}", scale_tag(scale_k))); }
     out.bump(&format!("n_{}", if n < 5 { "lt5" } else if n < 9 { "5to8" } else { "ge9" }));
     out.bump(&format!("d_{}", if d < 8 { "lt8" } else { "ge8" }));
 
     // right-hand side for the matrix product (small integers; 1..9 columns so that both sprs code paths run)
     let rc = if rng.chance(0.2) { 8 + rng.below(2) as usize } else { 1 + rng.below(3) as usize };
     let rhs: Vec<Vec<f64>> = (0..n).map(|_| (0..rc).map(|_| rng.range(-3, 3) as f64 * 0.5).collect()).collect();
-    let rhsa = arr(&rhs);
+    let rhsa = laid_out(&rhs, rhs_layout);
 
     // ---- run the implementation (panics are observations) ----
     let (xa2, rhsa2, kind2, nn2) = (xa.clone(), rhsa.clone(), kind.clone(), nn.clone());
@@ -286,6 +342,13 @@ fn one_case(
         // the builder through params().nn_algo(..) instead of params_with_nn(..)
         let k6: Kernel<f64> = Kernel::<f64>::params().nn_algo(nn2.clone()).method(km_of(km)).kind(kind2.clone()).transform(xa2.view());
         let forms_ok = forms_ok && same(&k6) == b0;
+        // an owned copy of the view (keeps negative strides / Fortran order when the memory is contiguous) and a
+        // standard-layout copy of the same logical records
+        let xo = xa2.view().to_owned();
+        let k7: Kernel<f64> = p.transform(&xo);
+        let xstd = xa2.as_standard_layout().to_owned();
+        let k8: Kernel<f64> = p.transform(&xstd);
+        let forms_ok = forms_ok && same(&k7) == b0 && same(&k8) == b0;
         let views_ok = bits_of_views(&vv) == b0 && bits_of_views(&vo) == b0;
         // the kernel remembers the method it was built with
         let want = km_of(km);
@@ -302,6 +365,32 @@ fn one_case(
             return;
         }
     };
+    // ---- scale covariance (Rust side): the kernel of the records divided by 2^k with the parameter scaled back is the
+    //      same matrix (Gaussian) resp. the matrix divided by 2^(2k) (linear), bit for bit, with the same sparse pattern;
+    //      polynomial kernels are judged per case by the Coq oracle only (powf need not commute with the scaling bit for bit)
+    if scale_k != 0 && !matches!(km, KM::Poly(..)) {
+        let f = (2.0f64).powi(-scale_k);
+        let xb: Vec<Vec<f64>> = x.iter().map(|r| r.iter().map(|v| v * f).collect()).collect();
+        let (xba, kmb, kind3, nn3) = (arr(&xb), km_scaled(km, -scale_k), kind.clone(), nn.clone());
+        let base = guarded(move || {
+            let k = build(&xba, kmb, &kind3, &nn3);
+            match &k.inner {
+                KernelInner::Dense(m) => (rows_of(&m.view()).concat(), vec![], vec![]),
+                KernelInner::Sparse(s) => (s.data().to_vec(), s.indptr().raw_storage().to_vec(), s.indices().to_vec()),
+            }
+        });
+        let g = if km == KM::Lin { (2.0f64).powi(2 * scale_k) } else { 1.0 };
+        let mine: Vec<f64> = if sparse.is_some() { v.data.clone() } else { v.dense.concat() };
+        let ok = match &base {
+            Ok((bd, bp, bi)) => bd.len() == mine.len() && bd.iter().zip(mine.iter()).all(|(b, m)| (b * g).to_bits() == m.to_bits())
+                && (sparse.is_none() || (*bp == v.indptr && *bi == v.indices)),
+            Err(_) => false,
+        };
+        out.bump("scale_covariance_checks");
+        if !ok {
+            out.rust_fail(id, 131072, &tagrefs, &format!("scale covariance: the kernel of the records scaled by 2^{} (parameter scaled accordingly) is not the unscaled kernel{} bit for bit / with the same pattern", scale_k, if km == KM::Lin { " times 2^(2k)" } else { "" }), &desc);
+        }
+    }
     if !views_ok {
         out.rust_fail(id, 4096, &tagrefs, "KernelView / to_owned report different size/sum/column/triangle/diagonal/dot than the owning kernel, or the kernel does not report the method it was built with", &desc);
     }
@@ -313,8 +402,11 @@ fn one_case(
     let nbrs: Vec<Vec<usize>> = match sparse {
         None => vec![],
         Some((k, _)) => {
-            let idx = nn.from_batch(&xa, L2Dist).expect("index");
-            xa.rows().into_iter().map(|r| idx.k_nearest(r, k + 1).unwrap().into_iter().map(|(_, i)| i).collect()).collect()
+            // the witness lists come from the same index kind on a standard-layout copy of the same logical records (the
+            // k-d tree index cannot be built on records that are not contiguous row by row)
+            let xw = arr(x);
+            let idx = nn.from_batch(&xw, L2Dist).expect("index");
+            xw.rows().into_iter().map(|r| idx.k_nearest(r, k + 1).unwrap().into_iter().map(|(_, i)| i).collect()).collect()
         }
     };
     if let Some((k, _)) = sparse {
@@ -333,9 +425,10 @@ fn one_case(
         if self_dropped { out.bump(&format!("knn_self_not_in_answer_{}", nnname)); }
         if tie {
             // do the three indices answer differently on this input?
+            let xstd = arr(x);
             let lists: Vec<Vec<Vec<usize>>> = NNS.iter().map(|(a, _)| {
-                let idx = a.from_batch(&xa, L2Dist).expect("index");
-                xa.rows().into_iter().map(|r| { let mut l: Vec<usize> = idx.k_nearest(r, k + 1).unwrap().into_iter().map(|(_, i)| i).collect(); l.sort(); l }).collect()
+                let idx = a.from_batch(&xstd, L2Dist).expect("index");
+                xstd.rows().into_iter().map(|r| { let mut l: Vec<usize> = idx.k_nearest(r, k + 1).unwrap().into_iter().map(|(_, i)| i).collect(); l.sort(); l }).collect()
             }).collect();
             if lists[0] != lists[1] || lists[0] != lists[2] { out.bump("knn_indices_answer_differently"); }
         }
@@ -668,5 +761,5 @@ fn main() {
     // (d) malformed
     malformed(&mut out, &mut id);
 
-    out.finish("exhaustive: all 1-D point sets over {0,1,2,3} with 2..3 points and over {0,1,2} with 4 points (thorough: {0,1,2,3} up to 4 points, {0,1,2} with 5) x all neighbour counts x 3 indices; random: 6 data families (integer lattice, dyadic blobs, arbitrary doubles, equally spaced line, few distinct points, groups with an outlier) x kernel method (linear / Gaussian / polynomial) x dense or sparse(k, index) x linkage methods x all cluster counts 1..n+1 and thresholds at/next to/between/beyond the dendrogram heights; polynomial grid: degrees {-2,-1,-0.5,0,0.5,1,1.5,2,2.5,3} x constants {0,-1,1,0.5,-0.25} on half-integer lattices, dense and sparse, all views; every dendrogram of kodama::linkage is checked against the Lance-Williams recurrence and the model's own agglomeration against kodama::primitive; a case is non-trivial when it has >= 3 points of which >= 2 distinct; distinct = distinct (data, kernel, kind, linkage) hashes");
+    out.finish("exhaustive: all 1-D point sets over {0,1,2,3} with 2..3 points and over {0,1,2} with 4 points (thorough: {0,1,2,3} up to 4 points, {0,1,2} with 5) x all neighbour counts x 3 indices; random: 6 data families (integer lattice, dyadic blobs, arbitrary doubles, equally spaced line, few distinct points, groups with an outlier) x kernel method (linear / Gaussian / polynomial) x dense or sparse(k, index) x linkage methods x all cluster counts 1..n+1 and thresholds at/next to/between/beyond the dendrogram heights; polynomial grid: degrees {-2,-1,-0.5,0,0.5,1,1.5,2,2.5,3} x constants {0,-1,1,0.5,-0.25} on half-integer lattices, dense and sparse, all views; every case presents its records and the dot right-hand side in one of 8 memory layouts (standard, Fortran, reversed rows / columns / both, strided rows / columns, Fortran with reversed rows) and scales the records by one of 2^-40, 2^-20, 1, 2^20, 2^40 with Gaussian eps / polynomial constant scaled by the square (rotation by a hash of the case id); every dendrogram of kodama::linkage is checked against the Lance-Williams recurrence and the model's own agglomeration against kodama::primitive; a case is non-trivial when it has >= 3 points of which >= 2 distinct; distinct = distinct (data, kernel, kind, linkage) hashes");
 }
